@@ -167,16 +167,17 @@ def _shapes(run, M):
     refnb = VN().ev(ast.parse("[(i - b + s) // s for i, b, s in zip(A, blk_shape, blk_strides)]", mode="eval").body,
                     State({"A": S("A"), "blk_shape": S("blk_shape"), "blk_strides": S("blk_strides")}))
     sites = []
-    for q, var, sub in (("sigpy.linop.ArrayToBlocks.__init__", "num_blks", "ishape"), ("sigpy.linop.BlocksToArray.__init__", "num_blks", "oshape"),
-                        ("sigpy.block.array_to_blocks", "num_blks", None)):
+    for q in ("sigpy.linop.ArrayToBlocks.__init__", "sigpy.linop.BlocksToArray.__init__", "sigpy.block.array_to_blocks"):
         f = M.func(q)
+        # the site is the assignment whose value is a comprehension over zip(.., blk_shape, blk_strides) (whatever the local is called)
         for n in ast.walk(f.node):
-            if isinstance(n, ast.Assign) and isinstance(n.targets[0], ast.Name) and n.targets[0].id == var:
+            if isinstance(n, ast.Assign) and isinstance(n.targets[0], ast.Name) and isinstance(n.value, (ast.ListComp, ast.GeneratorExp, ast.Call)):
+                comps = [x for x in ast.walk(n.value) if isinstance(x, (ast.ListComp, ast.GeneratorExp))]
+                if len(comps) != 1 or not any(isinstance(c, ast.Call) and isinstance(c.func, ast.Name) and c.func.id == "zip"
+                                              and any(isinstance(a_, ast.Name) and a_.id == "blk_strides" for a_ in c.args) for c in ast.walk(comps[0])):
+                    continue
                 vn = VN(M, f)
-                env = {}
-                if q.endswith("array_to_blocks"):
-                    env["ndim"] = T.sym("D", real=True)
-                t = vn.ev(n.value, State(env))
+                t = vn.ev(comps[0], State({}))
                 sites.append((q, t, n))
     run.floor("X7", 3, len(sites), "sites computing the number of blocks")
     for q, t, n in sites:
@@ -202,13 +203,31 @@ def _dispatch_roles(M, wrapper, kernel_name):
     c = calls[0]
     bound = M.bind(c, k)
     roles = {}
+
+    def role_of(name):
+        """a parameter of the wrapper keeps its (API) name; a local is classified by what it is defined as"""
+        if name in f.params:
+            return name
+        defs = [n for n in ast.walk(f.node) if isinstance(n, ast.Assign) and len(n.targets) == 1 and isinstance(n.targets[0], ast.Name) and n.targets[0].id == name]
+        if len(defs) != 1:
+            return name
+        v = defs[0].value
+        if any(isinstance(x, ast.FloorDiv) for x in ast.walk(v)) and any(isinstance(x, (ast.ListComp, ast.GeneratorExp)) for x in ast.walk(v)):
+            return "num_blks"   # [(i - b + s) // s for ...]  (rule X7 checks the formula itself)
+        if isinstance(v, ast.Subscript) and isinstance(v.value, ast.Attribute) and v.value.attr == "shape" and isinstance(v.slice, ast.Slice):
+            return "num_blks"   # the block-count axes of the blocks array: input.shape[-2*ndim:-ndim]
+        if isinstance(v, ast.Call) and unparse(v.func).split(".")[-1] == "prod":
+            return "batch_size"
+        return name
     for p, node in bound.items():
         if isinstance(node, ast.Subscript) and isinstance(node.value, ast.Name):
             idx = node.slice
             if isinstance(idx, ast.UnaryOp) and isinstance(idx.op, ast.USub) and isinstance(idx.operand, ast.Constant):
-                roles[p] = (node.value.id, idx.operand.value)
+                roles[p] = (role_of(node.value.id), idx.operand.value)
             else:
-                roles[p] = (node.value.id, None)
+                roles[p] = (role_of(node.value.id), None)
+        elif isinstance(node, ast.Name):
+            roles[p] = (role_of(node.id), 0)
         else:
             roles[p] = (unparse(node), 0)
     # the dispatch is guarded by ndim == rank
